@@ -314,11 +314,21 @@ def _roundtrip(run, PV):
         g = A.cfg(td, ci)
         emitted = {}
         dicts = [n for n in A.own_nodes(td) if isinstance(n, ast.Dict)]
-        run.require(len(dicts) == 1, f"{ci.name}.to_dict: dict literal not found")
-        for k, v in zip(dicts[0].keys, dicts[0].values):
-            emitted[k.value] = v
+        run.require(len(dicts) >= 1, f"{ci.name}.to_dict: dict literal not found")
+        by_path = len(dicts) != 1
+        if by_path:
+            # several displays (early return of the mandatory part, `{**base, k: v}` ...): what each returning path hands out, key by key
+            emitted, cond_keys = _returned_dicts(run, td, ci)
+            for kname, conds_ in sorted(cond_keys.items()):
+                req_ = kname in REQUIRED_FIELDS.get(cq, ())
+                run.check("R3", not req_, f"{ci.name}.to_dict: `{kname}` is always written or optional for the loader", key=f"{ci.name}.to_dict|{kname}|conditional",
+                          where=td.loc(), message=f"{ci.name}.to_dict writes `{kname}` only when {conds_[:2]}, but the constructor requires the field: a certificate that "
+                          "loads (and validates) cannot be loaded again after it is saved")
+        else:
+            for k, v in zip(dicts[0].keys, dicts[0].values):
+                emitted[k.value] = v
         F_ = Facts(A)
-        for n in A.own_nodes(td):        # result["tweak"] = self.tweak
+        for n in (A.own_nodes(td) if not by_path else ()):        # result["tweak"] = self.tweak
             if isinstance(n, ast.Assign) and isinstance(n.targets[0], ast.Subscript) \
                     and isinstance(n.targets[0].slice, ast.Constant):
                 emitted[n.targets[0].slice.value] = n.value
@@ -407,6 +417,61 @@ def _roundtrip(run, PV):
     V2 = P.cls("admin.certificate_v2.HSMCertificateV2")
     run.check("R3", P.class_const(V2, "VERSION") == 2 and P.class_const(C, "VERSION") == 1, "VERSION constants 1 / 2",
               key="VERSION|constants", where=V2.module.relpath, message="certificate VERSION constants changed")
+
+
+def _returned_dicts(run, td, ci):
+    """to_dict decided path by path: ({key: value expression}, {key written on some paths only: the conditions of a path that writes it})."""
+    from sa.decide import Walker
+    A = run.A
+    g = A.cfg(td, ci)
+
+    def model(lf, e, depth=0):
+        if depth > 6:
+            return None
+        if isinstance(e, ast.Name):
+            base = lf.env.get(e.id, lf.bind.get(e.id))
+            m = model(lf, base, depth + 1) if base is not None else None
+            if m is None:
+                return None
+            for k, st, v in lf.effects:
+                if k == "assign" and len(st.targets) == 1 and isinstance(st.targets[0], ast.Subscript) and isinstance(st.targets[0].value, ast.Name) \
+                        and st.targets[0].value.id == e.id:
+                    if not (isinstance(st.targets[0].slice, ast.Constant) and isinstance(st.targets[0].slice.value, str)):
+                        return None
+                    m[st.targets[0].slice.value] = v
+            return m
+        if isinstance(e, ast.Dict):
+            m = {}
+            for k, v in zip(e.keys, e.values):
+                if k is None:
+                    sub = model(lf, v, depth + 1)
+                    if sub is None:
+                        return None
+                    m.update(sub)
+                elif isinstance(k, ast.Constant) and isinstance(k.value, str):
+                    m[k.value] = v
+                else:
+                    return None
+            return m
+        return None
+    leaves = [lf for lf in Walker(A, td, ci, lambda e: None).walk(g.entry) if lf.kind == "return"]
+    run.require(leaves, f"{ci.name}.to_dict: no returning path")
+    models = []
+    for lf in leaves:
+        m = model(lf, lf.node.ast.value)
+        run.require(m is not None, f"{ci.name}.to_dict: the returned dictionary of the path ending at line {lf.node.lineno} is not a display / spread / keyed stores (idiom not understood)")
+        models.append((lf, {k: lf.deep(v) for k, v in m.items()}))
+    emitted, cond = {}, {}
+    for lf, m in models:
+        for k, v in m.items():
+            if k in emitted:
+                run.require(norm(emitted[k]) == norm(v), f"{ci.name}.to_dict: `{k}` is written as `{norm(emitted[k])[:50]}` on one path and `{norm(v)[:50]}` on another (idiom not understood)")
+            else:
+                emitted[k] = v
+    for k in emitted:
+        if any(k not in m for lf, m in models):
+            cond[k] = sorted({(t[1:] if isinstance(t, str) and t.startswith("?") else str(t)) + ("" if b else " is false") for lf, m in models if k in m for t, b in lf.pc.items()})
+    return emitted, cond
 
 
 def _inline_props(run, ci, e, depth=0):
